@@ -6,8 +6,9 @@
         case Foo(): s3                s2
         case _: s4                elif isinstance(x, Foo): s3
                                   else: s4
-A match whose patterns bind names (`case [a, b]:`, `case Foo(x=y):`, `case str() as s:`) is left alone (the CFG builds
-opaque tests for it). Subject expressions that are not a plain name / attribute are evaluated once into a temporary.
+`case Cls(attr=name) if guard:` is `isinstance(x, Cls) and guard` with `name` standing for `x.attr` in guard and body. A
+match whose patterns bind names in another way (`case [a, b]:`, `case str() as s:`) is left alone (the CFG builds opaque
+tests for it). Subject expressions that are not a plain name / attribute are evaluated once into a temporary.
 Literal, singleton, class (without sub-patterns), or-patterns, wildcard, fixed-length sequence patterns over a tuple
 subject and sequence patterns of literals / wildcards (with at most one `*_`) over any subject are translated; guards become `and guard`. Python's semantics for these patterns are exactly these tests
 (class pattern without arguments = isinstance; literal = ==; None/True/False = is)."""
@@ -21,7 +22,20 @@ class _No(Exception):
     pass
 
 
-def _test(subject, pat):
+def _test(subject, pat, binds=None):
+    if isinstance(pat, ast.MatchClass) and not pat.patterns and pat.kwd_patterns and binds is not None \
+            and isinstance(subject, (ast.Name, ast.Attribute, ast.Subscript)):
+        # `case Cls(attr=name)` / `case Cls(attr=<literal>)`: isinstance + attribute tests; captured names stand for S.attr
+        parts = [ast.Call(func=ast.Name(id='isinstance', ctx=ast.Load()), args=[copy.deepcopy(subject), pat.cls], keywords=[])]
+        for attr, p in zip(pat.kwd_attrs, pat.kwd_patterns):
+            el = ast.Attribute(value=copy.deepcopy(subject), attr=attr, ctx=ast.Load())
+            if isinstance(p, ast.MatchAs) and p.pattern is None and p.name is not None:
+                binds[p.name] = el
+            else:
+                t = _test(el, p)
+                if not (isinstance(t, ast.Constant) and t.value is True):
+                    parts.append(t)
+        return parts[0] if len(parts) == 1 else ast.BoolOp(op=ast.And(), values=parts)
     if isinstance(pat, ast.MatchValue):
         return ast.Compare(left=copy.deepcopy(subject), ops=[ast.Eq()], comparators=[pat.value])
     if isinstance(pat, ast.MatchSingleton):
@@ -61,6 +75,16 @@ def _test(subject, pat):
     raise _No
 
 
+class _SubstNames(ast.NodeTransformer):
+    def __init__(self, m):
+        self.m = m
+
+    def visit_Name(self, n):
+        if isinstance(n.ctx, ast.Load) and n.id in self.m:
+            return ast.copy_location(copy.deepcopy(self.m[n.id]), n)
+        return n
+
+
 class Desugar(ast.NodeTransformer):
     def __init__(self):
         self.n = 0
@@ -80,21 +104,36 @@ class Desugar(ast.NodeTransformer):
                 pre = [ast.Assign(targets=[ast.Name(id=tmp, ctx=ast.Store())], value=subject, lineno=node.lineno)]
                 subject = ast.Name(id=tmp, ctx=ast.Load())
             tests = []
+            bodies = []
             for c in node.cases:
-                t = _test(subject, c.pattern)
-                if c.guard is not None:
-                    t = c.guard if isinstance(t, ast.Constant) and t.value is True else \
-                        ast.BoolOp(op=ast.And(), values=[t, c.guard])
+                binds = {}
+                t = _test(subject, c.pattern, binds)
+                guard, body = c.guard, list(c.body)
+                if binds:
+                    stored = {x.id for s_ in body for x in ast.walk(s_) if isinstance(x, ast.Name)
+                              and isinstance(x.ctx, (ast.Store, ast.Del))}
+                    sub = _SubstNames(binds)
+                    if guard is not None:
+                        guard = sub.visit(copy.deepcopy(guard))
+                    if stored & set(binds):
+                        body = [ast.Assign(targets=[ast.Name(id=k, ctx=ast.Store())], value=copy.deepcopy(v), lineno=node.lineno)
+                                for k, v in binds.items()] + body
+                    else:
+                        body = [sub.visit(s_) for s_ in body]
+                if guard is not None:
+                    t = guard if isinstance(t, ast.Constant) and t.value is True else \
+                        ast.BoolOp(op=ast.And(), values=[t, guard])
                 tests.append(t)
+                bodies.append(body)
         except _No:
             return node
         chain = None
-        for c, t in reversed(list(zip(node.cases, tests))):
+        for body, t in reversed(list(zip(bodies, tests))):
             if isinstance(t, ast.Constant) and t.value is True and chain is None:
-                chain = list(c.body)                       # trailing `case _:` -> else
+                chain = list(body)                       # trailing `case _:` -> else
                 continue
             orelse = chain if isinstance(chain, list) else ([chain] if chain is not None else [])
-            chain = ast.If(test=t, body=list(c.body), orelse=orelse)
+            chain = ast.If(test=t, body=list(body), orelse=orelse)
         if isinstance(chain, list):
             out = pre + chain
         else:
